@@ -1918,12 +1918,13 @@ def run(ctx):
     nontrivial |= run_args_correspondence(ctx, factory, n_args)
     n_bulk = (1500 if thorough else 150) * ctx.scale
     nontrivial |= run_bulk_correspondence(ctx, n_bulk)
-    n_alias = (3000 if thorough else 250) * ctx.scale
+    n_alias = (3000 if thorough else 200) * ctx.scale
     nontrivial |= run_alias_correspondence(ctx, n_alias)
 
     # ---------------- (b) differential
-    # a case costs ~0.85 s since wave 3 (markup features, nested blocks, the history on one parser): 1800 keeps the thorough tier under 30 min
-    n_cases = (1800 if thorough else 110) * ctx.scale
+    # a case costs ~0.85 s since wave 3 (markup features, nested blocks, the history on one parser), ~1.1 s since wave 4 (mutating features:
+    # more loops per template): 1400 keeps the thorough tier under 30 min, 95 the quick tier under 2
+    n_cases = (1400 if thorough else 95) * ctx.scale
     dist = {"valid": 0, "malformed": {}, "A_ok": 0, "A_err": 0, "instances": 0, "features": {}, "data_rows": {},
             "markup_kind": {}, "markup_column": {}, "markup_form": {},
             "histories_on_one_parser": {"run": 0, "calls": {}, "lengths": {}, "with_a_repeated_call": 0, "registry_changed_by_calls": 0},
